@@ -239,6 +239,10 @@ func (k Keeper) IBCCoinToBaseCoin(ctx context.Context, coin sdk.Coin, holder sdk
 	if err != nil {
 		return sdk.Coin{}, err
 	}
+	if baseDenom == coin.Denom {
+		// the voucher itself is the base denomination: there is nothing to convert
+		return coin, nil
+	}
 	baseCoin := sdk.NewCoin(baseDenom, coin.Amount)
 	if err = k.bankKeeper.SendCoinsFromAccountToModule(ctx, holder, ibctransfertypes.ModuleName, sdk.NewCoins(coin)); err != nil {
 		return sdk.Coin{}, err
